@@ -5,6 +5,7 @@ the implementation never runs from /repo itself), runs the property in a child
 with PYTHONPATH pointing at the snapshot, removes the scratch directory."""
 import argparse
 import os
+import signal
 import shutil
 import subprocess
 import sys
@@ -32,7 +33,19 @@ def main():
         cmd = [sys.executable, '-m', 'runprop', a.prop, a.tier, str(a.seed), scratch]
         if a.replay:
             cmd += ['--replay', os.path.abspath(a.replay)]
-        return subprocess.call(cmd, cwd=snap, env=env)
+        # own session: workers that outlive the child (a killed pool) must not keep pipes open
+        proc = subprocess.Popen(cmd, cwd=snap, env=env, start_new_session=True)
+        limit = int(os.environ.get('VERIF_MAX_S', '1500' if a.tier == 'quick' else '7200'))
+        try:
+            return proc.wait(timeout=limit)
+        except subprocess.TimeoutExpired:
+            print('check %s: no result after %d s, giving up (harness failure, not a verdict)' % (a.prop, limit))
+            return 2
+        finally:
+            try:
+                os.killpg(proc.pid, signal.SIGKILL)
+            except OSError:
+                pass
     finally:
         shutil.rmtree(scratch, ignore_errors=True)
 
